@@ -72,22 +72,44 @@ let zscenario c =
       ZReuse { ru_box = b; ru_fam = f; ru_before = ba; ru_last = la; ru_obefore = bb; ru_other = lb }
   | _ -> ZOld (xscenario c)
 let probs o = String.concat " " ([pbool o.q_ab; pbool o.q_ba] @ List.map (function None -> ":fail" | Some r -> prval r) o.q_get)
-let run_line ts = let c = { rest = ts } in let s = zscenario c in
+(* ---- by-content values at the edges of their representation:
+   :em <iface> <arena> <ref> <len> <ref> <len> | :es <iface> <arena> <ref> <ref> | :ev <iface> <value> <value>
+   iface ::= :eq | :cpp | :c     ref ::= ~ (NULL) | <offset into the arena> ---- *)
+let iface_of = function ":eq" -> IEquals | ":cpp" -> IMockCpp | ":c" -> IMockC | t -> raise (Bad ("interface " ^ t))
+let eref c = match next c with "~" -> RNull | t -> ROff (nat_tok t)
+let wscenario c =
+  match peek c with
+  | Some ":em" -> ignore (next c);
+      let i = iface_of (next c) in let ar = bytes_tok (next c) in
+      let ra = eref c in let la = nat_tok (next c) in let rb = eref c in let lb = nat_tok (next c) in
+      WEdge (EMem (i, ar, ra, la, rb, lb))
+  | Some ":es" -> ignore (next c);
+      let i = iface_of (next c) in let ar = bytes_tok (next c) in
+      let ra = eref c in let rb = eref c in WEdge (EStr (i, ar, ra, rb))
+  | Some ":ev" -> ignore (next c);
+      let i = iface_of (next c) in let a = value c in let b = value c in WEdge (EVal (i, a, b))
+  | _ -> WOld (zscenario c)
+let peobs = function None -> ":fault" | Some (ab, ba) -> pbool ab ^ " " ^ pbool ba
+let run_line ts = let c = { rest = ts } in let s = wscenario c in
   if not (at_end c) then raise (Bad "trailing tokens") else
-  if not (z_valid s) then raise (Bad "invalid scenario: value out of range of its type / window outside the arena / accessor not offered / default not of the accessor's type / the box has no setter for a stored value")
-  else (match z_run s with PObs o -> pxobs o | PReuse o -> probs o)
-let spec_line ts os = let c = { rest = ts } in let s = zscenario c in
+  if not (w_valid s) then raise (Bad "invalid scenario: value out of range of its type / window outside the arena / a NULL buffer with a size / accessor not offered / default not of the accessor's type / the box has no setter for a stored value")
+  else (match w_run s with QOld (PObs o) -> pxobs o | QOld (PReuse o) -> probs o | QEdge o -> peobs o)
+let spec_line ts os = let c = { rest = ts } in let s = wscenario c in
   match s with
+  | WEdge _ -> (match os with
+      | [ab; ba] -> w_spec s (QEdge (Some (bool_tok ab, bool_tok ba)))
+      | _ -> false)
+  | WOld z -> (match z with
   | ZReuse _ -> (match os with
       | ab :: ba :: gs ->
           let oc = { rest = gs } in
           let rec reads () = if at_end oc then [] else
             (if peek oc = Some ":fail" then (ignore (next oc); None :: reads ()) else (let r = rval oc in Some r :: reads ())) in
-          z_spec s (PReuse { q_ab = bool_tok ab; q_ba = bool_tok ba; q_get = reads () })
+          w_spec s (QOld (PReuse { q_ab = bool_tok ab; q_ba = bool_tok ba; q_get = reads () }))
       | _ -> false)
   | ZOld (XRead _) -> (match os with
-      | [":fail"] -> z_spec s (PObs (ORead None))
-      | _ -> let oc = { rest = os } in let r = rval oc in at_end oc && z_spec s (PObs (ORead (Some r))))
+      | [":fail"] -> w_spec s (QOld (PObs (ORead None)))
+      | _ -> let oc = { rest = os } in let r = rval oc in at_end oc && w_spec s (QOld (PObs (ORead (Some r)))))
   | ZOld (XOld _) -> (match os with
-      | ab :: ba :: gs -> z_spec s (PObs (OOld { o_ab = bool_tok ab; o_ba = bool_tok ba; o_get = List.map (fun g -> if g = "~" then None else Some (z_tok g)) gs }))
-      | _ -> false)
+      | ab :: ba :: gs -> w_spec s (QOld (PObs (OOld { o_ab = bool_tok ab; o_ba = bool_tok ba; o_get = List.map (fun g -> if g = "~" then None else Some (z_tok g)) gs })))
+      | _ -> false))
